@@ -2356,6 +2356,10 @@ func ruleMemoPair(c *Ctx) []Obligation {
 			con := fmt.Sprintf("%s: key filed #%d in Modules.%s identifies what it stands for", c.FnName(fn), i+1, recordedFieldName(w.f))
 			if owner, kf, _ := loadedField(w.key); kf != nil && kf.Name() == "Name" && owner != nil && isBasic(kf.Type()) {
 				obs = append(obs, bad(R, con, c.InstrPos(w.in), "the set is keyed by the bare "+objName(owner.Obj())+".Name: two different "+strings.ToLower(objName(owner.Obj()))+" statements of the same name (in different modules or scopes) are taken for one, so the second is reported as already in progress / already done"))
+			} else if names, others := keyIngredients(w.key); names >= 2 && others == 0 && recordedFieldName(w.f) == "expandingGrouping" {
+				// a string put together from names only (module name and statement name) still does not tell two
+				// statements of one name in sibling scopes of one module apart
+				obs = append(obs, bad(R, con, c.InstrPos(w.in), "the set is keyed by a text made of names only: two different statements of the same name in different scopes of one module are taken for one, so the second is reported as already in progress"))
 			} else {
 				obs = append(obs, ok(R, con, c.InstrPos(w.in), "keyed by an object, a path or a composed string"))
 			}
@@ -3821,4 +3825,39 @@ func errFanoutOnce(c *Ctx) []Obligation {
 		obs = append(obs, undecided(R, con, "-", "no method adds an error parameter to Entry.Errors"))
 	}
 	return obs
+}
+
+// keyIngredients: the fields a composed key is made of — how many are a bare Name of something, how many are anything
+// else (a position, a revision, a path, an object).
+func keyIngredients(key ssa.Value) (names, others int) {
+	seen := map[*types.Var]bool{}
+	visit := func(x ssa.Value) {
+		_, f, _ := loadedField(x)
+		if f == nil || seen[f] {
+			return
+		}
+		if !isBasic(f.Type()) {
+			return
+		}
+		seen[f] = true
+		if f.Name() == "Name" {
+			names++
+		} else {
+			others++
+		}
+	}
+	operandClosureDeep(key, visit)
+	// through the argument list of a formatting call
+	operandClosureDeep(key, func(x ssa.Value) {
+		if call, isC := x.(*ssa.Call); isC && len(call.Call.Args) > 0 {
+			for _, e := range variadicElems(call.Call.Args[len(call.Call.Args)-1]) {
+				operandClosureDeep(e, visit)
+				visit(e)
+			}
+		}
+	})
+	if _, isPtr := key.Type().Underlying().(*types.Pointer); isPtr {
+		others++
+	}
+	return names, others
 }
